@@ -73,7 +73,7 @@ def gen_case(rng, tier):
     elif r < 0.8:
         max_n = 12
     else:
-        max_n = 40 if tier == "quick" else rng.choice((40, 80, 150))
+        max_n = rng.choice((40, 40, 40, 40, 90)) if tier == "quick" else rng.choice((40, 80, 150))
     A, B = dgmgen.gen_pair(rng, max_n)
     staircase = rng.random() < 0.015
     if staircase:
